@@ -60,7 +60,7 @@ def compare_rows(arec, crec, sched_rows, N, sup_name, stats):
             real = sa >= 0
             diff(f"inputs[{key}].ts_sent", f32(ia.ts_sent[k])[real], f32(ic.ts_sent[k])[real])
             diff(f"inputs[{key}].ts_recv", f32(ia.ts_recv[k])[real], f32(ic.ts_recv[k])[real])
-            for fld in ("src", "seq", "nonce", "h"):
+            for fld in ("src", "seq", "nonce", "h", "vec"):
                 diff(f"inputs[{key}].data.{fld}", onp.asarray(getattr(ia.data, fld)[k]).astype(onp.int64), onp.asarray(getattr(ic.data, fld)[k]).astype(onp.int64))
             stats["windows_compared"] += 1
         if k < len(a.output.h):
